@@ -642,6 +642,9 @@ def engine_stage(name, tier):
     def run(d):
         extra = []
         env = {}
+        if eng.get('simulate', {}).get(tier):
+            # fixed seed: the walks (and therefore the check) are the same on every run of the same tree
+            extra = ['-depth', str(eng.get('depth', {}).get(tier, 100)), '-seed', '20260924', '-aril', '0']
         cfgpath = os.path.join(d, cfgname)
         with open(cfgpath, 'w') as fh:
             fh.write(cfgtext)
@@ -652,6 +655,10 @@ def engine_stage(name, tier):
         m = re.search(r'(\d+) states generated, (\d+) distinct states found', txt)
         if m:
             res['transitions'], res['states'] = int(m.group(1)), int(m.group(2))
+        m = re.search(r'Progress: (\d+) states checked, (\d+) traces generated \(trace length: mean=(\d+)', txt)
+        if m and 'states' not in res:
+            res['transitions'] = res['states'] = int(m.group(1))
+            res['walks'], res['depth'] = int(m.group(2)), int(m.group(3))
         m = re.search(r'depth of the complete state graph search is (\d+)', txt)
         if m:
             res['depth'] = int(m.group(1))
@@ -790,7 +797,7 @@ def run_check(pid, tier, seed):
     for s in plan['conformance']:
         if s['kind'] == 'replay':
             er = next(e for e in engines if e['engine'] == s['engine'])
-            params = {'file': er['behaviours_file'], 'engine': s['engine'], 'n': er['behaviours'], 'sample': 20 if tier == 'quick' else 2, 'seed': seed}
+            params = {'file': er['behaviours_file'], 'engine': s['engine'], 'n': er['behaviours'], 'sample': 1 if P.ENGINES[s['engine']].get('simulate') else (20 if tier == 'quick' else 2), 'seed': seed}
         else:
             params = s['params']
         jobs.append((s['kind'], s['variant'], params))
